@@ -262,7 +262,7 @@ async def run_script(sc):
 
 # ------------------------------------------------------------------------------------------------
 
-def gen_script(rng, thorough=False):
+def gen_script(rng, thorough=False, race=False):
     limits = [1, 40, 100, 300, 700, 2000, 6000, HUGE, HUGE]
     sc = {'rb_c': rng.choice(limits), 'rb_s': rng.choice(limits),
           'rs_c': rng.choice([0, 0, 20, 100, 3600]), 'rs_s': rng.choice([0, 0, 20, 100, 3600]),
@@ -279,7 +279,7 @@ def gen_script(rng, thorough=False):
         sc['enc'], sc['mac'] = rng.choice(['aes256-cbc', '3des-cbc', 'aes192-ctr']), rng.choice(['hmac-sha2-256-etm@openssh.com', 'hmac-sha2-256', 'umac-64@openssh.com'])
     else:
         sc['enc'], sc['mac'] = 'chacha20-poly1305@openssh.com', None
-    shape = rng.choice(['mixed', 'mixed', 'one-sided', 'both-at-once', 'time', 'tiny'])
+    shape = 'time' if race else rng.choice(['mixed', 'mixed', 'one-sided', 'both-at-once', 'time', 'tiny'])
     if shape == 'one-sided':            # every exchange is started by the same peer, several times in a row
         who = rng.choice('cs')
         sc['rb_' + who], sc['rb_' + ('s' if who == 'c' else 'c')] = rng.choice([100, 300, 700]), HUGE
@@ -307,16 +307,18 @@ def gen_script(rng, thorough=False):
             steps.append(['O'])
         elif x < 0.84:
             steps.append(['D', side, rng.choice([1, 1, 2, 3, 8])])
-        elif x < 0.93:
+        elif x < 0.93 or not race:
             steps.append(['T', rng.choice([1, 5, 25, 120])])
-        else:
+        else:       # a write during which the clock advances between the two trigger evaluations of send_packet
             steps.append(['R', side, rng.randint(0, 3), rng.choice([5, 30]), rng.choice([0, 30, 150, 5000])])
         if shape == 'both-at-once' and rng.random() < 0.25:
             steps += [['T', 150], ['W', 'c', 0, 20], ['W', 's', 0, 20]]
         if shape == 'one-sided' and rng.random() < 0.5:
             steps += [['W', who, 0, 200], ['D', 'c', 6], ['D', 's', 6], ['D', 'c', 6], ['D', 's', 6]]
     sc['steps'] = steps
-    sc['shape'] = shape
+    sc['shape'] = 'race' if race else shape
+    if race:
+        sc['hostile'] = None
     return sc
 
 
@@ -379,8 +381,8 @@ async def run_busy(sc):
                     replies['greq'] += 1
                     try:                                           # global request with reply (refused by the server)
                         await conn.forward_remote_port('', 0, 'localhost', 22)
-                    except asyncssh.Error:
-                        pass
+                    except (asyncssh.Error, asyncssh.ChannelListenError):
+                        pass                                       # the refusal IS the answer
                     replies['greq_done'] += 1
                 elif x < 0.8:
                     cchans[rng.randrange(len(cchans))].change_terminal_size(80 + rng.randint(0, 9), 24)
